@@ -393,6 +393,13 @@ def c15():
                 cy = [y.operation.machines, y.operation.duration, y.operation.job_id, y.operation.position_in_job,
                       y.operation.operation_id, y.start_time, y.machine_id]
                 _eq_event(s, "scheduled_op", x, y, cx, cy)
+        # objects of different kinds (and things that are none of the four) are never equal to one another
+        so0 = ScheduledOperation(op0, 0, m0)
+        for (x, y, nx, ny) in ((so0, op0, "scheduled_op", "op"), (scheds[0], inst_a, "schedule", "instance"),
+                               (op0, op0.operation_id, "op", "int"), (so0, None, "scheduled_op", "None"),
+                               (inst_a, inst_a.name, "instance", "str"), (scheds[0], scheds[0].schedule, "schedule", "list"),
+                               (op0, (op0.machines, op0.duration), "op", "tuple"), (so0, so0.start_time, "scheduled_op", "int")):
+            _eq_event(s, "cross", x, y, [nx], [ny])
         traces.append(s.trace())
     # instances that come out of the library's own factories (generator, dict/JSON, Taillard text) against the same
     # content built by hand: "independently built objects with the same content"
